@@ -139,6 +139,7 @@ def check(run, M, tier):
                    "Kaiser-Bessel interpolate at scaled coordinates / width^-ndim, and the mirror with prod(os_shape) N^-1/2)")
     run.rule("U2", "beta is the same term in both transforms; _get_oversamp_shape, _scale_coord, _apodize use ceil(oversamp * n) as documented")
     run.rule("U3", "beta = pi*sqrt((W/sigma*(sigma-1/2))^2 - 0.8) (Beatty et al.); apodisation = x/sinh(x), x = sqrt(beta^2 - (pi W (idx - i//2)/os_i)^2)")
+    run.rule("U5", "the Kaiser-Bessel kernel is I0(beta sqrt(1 - x^2)) in the Abramowitz-Stegun 9.8.1/9.8.2 polynomial form, zero outside |x| <= 1 (same rule as C07/I5)")
     run.rule("U4", "toeplitz_psf evaluates nufft_adjoint(nufft(delta)) on the 2x grid with one (new_coord, oversamp, width), then the unnormalised FFT times 2^ndim")
     run.assume("accuracy of Kaiser-Bessel gridding at given (oversamp, width) is the cited references' result, not decided here")
     f1, c1 = _cmp(run, M, "U1", "sigpy.fourier.nufft", REF_NUFFT)
@@ -189,3 +190,6 @@ def check(run, M, tier):
     run.check(len(al) >= 1, "U1", "_apodize in-place contract", fa.loc(), "_apodize works on the caller's buffer (callers pass a private copy)",
               "_apodize no longer scales the array it is given in place, but nufft/nufft_adjoint discard its return value", stmt="U1:apod-inplace")
     _cmp(run, M, "U4", "sigpy.fourier.toeplitz_psf", REF_PSF, loop_hook=havoc_loop)
+    # U5 the interpolation kernel nufft relies on (anchor: Kaiser-Bessel kernel via the polynomial I0 approximation)
+    from .c07 import check_kernel_functions
+    check_kernel_functions(run, M, "U5", names=("_kaiser_bessel_kernel",))
